@@ -537,7 +537,14 @@ def make_reject(rng, what):
         tform = rng.choice(("hms", "hmsf", "hmf", "hm"))
         ttxt = spell_time(rng, tform, False)[0]
         text = T.enc_date(rep, date, True) + "T" + ttxt
-    text += spell_zone(rng, rng.choice(("none", "Z")), True)[0]
+    # any zone, of either sign, spelled in either notation: the mixture
+    # stays ill-formed
+    zform = rng.choice(("none", "Z", "hh", "hhmm", "hhmm"))
+    off = rng.choice(((-1, -30), (-5, 0), (3, 0), (5, 30), (-11, -45),
+                      gen.rand_offset(rng)))
+    if abs(off[0]) > 23:
+        off = (-2, 0)
+    text += spell_zone(rng, zform, rng.random() < 0.5, off=off)[0]
     return {"op": "parse", "cfg": cfg, "text": text, "local": [0, 0],
             "expect": {"kind": "reject", "tag": "reject/" + what, "cfg": cfg,
                        "why": "basic and extended notation mixed"}}
